@@ -124,6 +124,19 @@ func (r *raftState) setLastSnapshot(index, term uint64) {
 	r.lastLock.Unlock()
 }
 
+// advanceLastSnapshot records a snapshot this server has taken itself, unless
+// a snapshot at or beyond that index has been recorded in the meantime (an
+// InstallSnapshot or a user Restore handled by the main thread while the
+// snapshot thread was still writing).
+func (r *raftState) advanceLastSnapshot(index, term uint64) {
+	r.lastLock.Lock()
+	if index > r.lastSnapshotIndex {
+		r.lastSnapshotIndex = index
+		r.lastSnapshotTerm = term
+	}
+	r.lastLock.Unlock()
+}
+
 func (r *raftState) getCommitIndex() uint64 {
 	return atomic.LoadUint64(&r.commitIndex)
 }
